@@ -26,12 +26,10 @@ fuzz_target!(|data: &[u8]| {
         }
         let tolerated = known.iter().any(|k| k.status == "known" && k.property == v.prop && sig_matches(&k.signature, &v.sig));
         if !tolerated {
-            eprintln!("VIOLATION {} {}\n  {}\ncase: {}", v.prop, v.sig, v.detail, serde_json_like(&case));
+            eprintln!("VIOLATION {} {}\n  {}", v.prop, v.sig, v.detail);
+            eprintln!("REPLAY-JSON: {}", vharness::replay_json("case", v.prop, &v.sig, &case));
             std::process::abort();
         }
     }
 });
 
-fn serde_json_like(case: &vharness::scenario::Case) -> String {
-    vharness::case_to_json(case)
-}
